@@ -463,6 +463,52 @@ def rd_unit(u, res):
             lin = lin + cols[k].astype(object) * symnp.SR(rs[k])
         v, m, idx = assert_equal(res, "u(r) == sum_m r_m u(e_m) for all r (T = %g K, %s)" % (T0, df), symnp.unwrap(ur), symnp.unwrap(lin), box(rs), tol=1e-10, chunk=24)
         report(res, v, key + ":linear", "random displacements are not the linear image of the normal variates", lambda: replay_rd(gid, sid, df), m)
+        # --- the variates the sampler draws itself: numpy's generator is a contract stub (a stream is a function of its seed: generators
+        # made from the same integer seed return the same numbers, unseeded generators are unrelated); every variate slot must receive
+        # its own number of the stream(s) -- independence -- and the displacements must be the linear image of exactly those numbers
+        for seed_arg in (5, None):
+            draws = []; counter = [0]
+
+            class Gen:
+                def __init__(g, seed=None):
+                    if seed is None:
+                        counter[0] += 1; g.sid = "u%d" % counter[0]
+                    else:
+                        g.sid = "s%d" % int(seed)
+                    g.k = 0
+
+                def standard_normal(g, size=None):
+                    cnt = int(np.prod(size)) if size is not None else 1
+                    vs = [z3.Real("z_%s_%d" % (g.sid, g.k + i)) for i in range(cnt)]
+                    g.k += cnt
+                    draws.append((tuple(np.atleast_1d(size)), vs))
+                    return symnp.wrap_reals(vs, tuple(np.atleast_1d(size)))
+            old_rng = np.random.default_rng
+            np.random.default_rng = lambda seed=None, *a, **k: Gen(seed)
+            try:
+                with symnp.session({"phonopy.phonon.random_displacements"}):
+                    rd.run(T0, number_of_snapshots=1, random_seed=seed_arg)
+                    us = np.asarray(rd.u, dtype=object).reshape(3 * n)
+            finally:
+                np.random.default_rng = old_rng
+            d_ii = [vs for shp, vs in draws if shp == (nii, 1, nb)]
+            d_ij = [vs for shp, vs in draws if shp == (nij, 2, 1, nb)]
+            names = [str(v) for _, vs in draws for v in vs]
+            shape_ok = len(d_ii) == 1 and len(d_ij) == (1 if nij else 0) and len(draws) == len(d_ii) + len(d_ij)
+            distinct = len(set(names)) == len(names)
+            okq = shape_ok and distinct
+            res.queries.append({"name": "random_seed=%s: every variate slot (%d) receives its own number of the generator stream(s) [structural fact on the stub's symbols]" % (seed_arg, len(names)),
+                                "verdict": "unsat" if okq else "sat", "seconds": 0.0, "nvars": len(names), "nontrivial": True, "hash": "rd-indep-%s-%s-%s-%s" % (gid, sid, df, seed_arg)})
+            if not okq:
+                conf, what = replay_rd_seed(gid, sid, df)
+                (res.violations if conf else res.unconfirmed).append({"key": key + ":independent", "what": "random_seed=%s: %s; %s" % (seed_arg, "two variate slots receive the same random number" if shape_ok else "unexpected draws %s" % [d[0] for d in draws], what), "replay": {"unit": list(u)}})
+            else:
+                zs = d_ii[0] + (d_ij[0] if nij else [])
+                lin2 = symnp._zeros((3 * n,))
+                for k in range(S):
+                    lin2 = lin2 + cols[k].astype(object) * symnp.SR(zs[k])
+                v, m, idx = assert_equal(res, "random_seed=%s: displacements == sum_m z_m u(e_m) for the numbers z drawn from the generator" % (seed_arg,), symnp.unwrap(us), symnp.unwrap(lin2), box(zs), tol=1e-10, chunk=24)
+                report(res, v, key + ":drawn", "displacements are not the linear image of the drawn variates", lambda: replay_rd_seed(gid, sid, df), m)
         # --- ground facts at concrete temperatures
         facts = []
         for T in (0.0 if df == "quantum" else 5.0, 300.0):
@@ -491,6 +537,27 @@ def rd_unit(u, res):
     res.add_functions(br.functions); res.stat("ir_steps", br.steps)
     res.samples.append({"unit": res.unit, "modes": S, "groups": G, "self_conjugate_q": len(rd._ii), "conjugate_pairs": len(rd._ij), "supercell_atoms": n})
     return res
+
+
+@symnp.outside_session
+def replay_rd_seed(gid, sid, df):
+    """concrete: with an integer random_seed, recover the variates z from u = L z (L from one-hot variates); independent continuous
+    variates are pairwise different (and not opposite) with probability one"""
+    ph, fc, rd = make_rd(gid, sid, df)
+    S, r_ii, r_ij = one_hot_randn(rd)
+    n = len(ph.supercell)
+    rd.run(300.0, number_of_snapshots=S, randn=(r_ii, r_ij))
+    Lm = np.array(rd.u).reshape(S, 3 * n).T
+    use = [k for k in range(S) if np.abs(Lm[:, k]).max() > 1e-10]
+    worst = 1.0
+    for seed in (5, 11, 2024):
+        rd.run(300.0, number_of_snapshots=1, random_seed=seed)
+        uvec = np.array(rd.u).reshape(3 * n)
+        z = np.linalg.lstsq(Lm[:, use], uvec, rcond=None)[0]
+        for a in range(len(z)):
+            for b in range(a + 1, len(z)):
+                worst = min(worst, abs(z[a] - z[b]), abs(z[a] + z[b]))
+    return worst < 1e-8, "variates recovered from displacements drawn with an integer random_seed contain a repeated value (closest pair differs by %.2g): not independent" % worst
 
 
 @symnp.outside_session
